@@ -225,8 +225,9 @@ class Model(object):
             self.objval[k] += self.h(remove_scaling(self.xbase + self.points[k, :], self.scaling_changes), *self.argsh)
         self.nsamples[k] += 1
 
-        if not np.all(np.isnan(self.objval[:self.npt()])):  # argmin would select a NaN entry
-            self.kopt = np.nanargmin(self.objval[:self.npt()])  # make sure kopt is always the best value we have
+        not_nan = np.where(~np.isnan(self.objval[:self.npt()]))[0]  # (argmin would select a NaN entry, nanargmin cannot tell NaN from inf)
+        if len(not_nan) > 0:
+            self.kopt = not_nan[np.argmin(self.objval[not_nan])]  # make sure kopt is always the best value we have
         return
 
     def add_new_point(self, x, rvec, eval_num):
